@@ -242,6 +242,13 @@ def spec_programs():
                     Decl('d', INT, mk()), W(Var('d', INT)), _mark(' '),
                     Assign(x, mk()), W(x), _mark(' '), Assign(x, n),
                     Assign(gm, mk()), W(gm), _mark(' '), Assign(gm, n),
+                    # the speculation wrapped in something, assigned to the global its left operand may read
+                    Assign(gm, Un('-', mk())), W(gm), _mark(' '), Assign(gm, n),
+                    Assign(gm, Un('+', mk())), W(gm), _mark(' '), Assign(gm, n),
+                    Assign(gm, Cast(Cast(mk(), BYTE), INT)), W(gm), _mark(' '), Assign(gm, n),
+                    Assign(gm, Cast(Bin('==', mk(), k), INT)), W(gm), _mark(' '), Assign(gm, n),
+                    OpAssign(gm, '+', mk()), W(gm), _mark(' '), Assign(gm, n),
+                    OpAssign(gm, '-', Un('-', mk())), W(gm), _mark(' '), Assign(gm, n),
                     Assign(Index(q, Lit(INT, 2)), mk()), W(Index(q, Lit(INT, 2))), _mark(' '),
                     W(mk()), _mark(' '),
                     W(Call(two, [k, mk()])), _mark(' '),
@@ -535,3 +542,74 @@ def history_programs():
 
 
 HISTORY_ARGS = [['0', '0'], ['1', '0'], ['0', '1'], ['1', '1']]
+
+
+# ------------------------------------------- statements and calls with a twist
+def exprstmt_programs():
+    """expression statements whose top node is not a call but which contain calls with effects, faults or defeat:
+    each is evaluated exactly once, for its effects, in every build"""
+    tick = Func('tick', [('k', INT, False)], INT, [W(S('t')), W(Var('k', INT)), OpAssign(Var('tn', INT), '+', _i(1)), Ret(Bin('+', Var('tn', INT), Var('k', INT)))])
+    okf = Func('okf', [('k', INT, False)], BOOL, [W(S('o')), OpAssign(Var('tn', INT), '+', _i(10)), Ret(Bin('>', Var('k', INT), _i(0)))])
+    q = Var('q', Arr(INT, False))
+    T = lambda k: Call(tick, [Lit(INT, k)])                         # noqa: E731
+    stmts = {
+        'and': Bin('and', Call(okf, [arg(0)]), Bin('>', T(1), _i(0))),
+        'or': Bin('or', Call(okf, [arg(0)]), Bin('>', T(2), _i(0))),
+        'index': Index(q, Bin('%', T(3), _i(3))),
+        'division': Bin('/', _i(100), T(4)),
+        'modulo_by_call': Bin('%', arg(1), Bin('+', T(0), _i(1))),
+        'negation': Un('-', T(5)),
+        'not': Un('not', Call(okf, [T(6)])),
+        'arith': Bin('+', T(7), Bin('*', T(8), _i(2))),
+        'comparison': Bin('<', T(9), T(10)),
+        'cast': Cast(T(11), BYTE),
+        'length': Len(Index(Var('ws', Arr(STRING, True)), Bin('%', T(12), _i(2)))),
+        'literal': ArrLit([T(13), T(14)], INT, True),
+        'nested_index_call': Index(q, Bin('%', Bin('+', Index(q, Bin('%', T(15), _i(3))), _i(300)), _i(3))),
+        'variable': Var('tn', INT),
+        'speculation': Spec(T(16), _i(0)),
+    }
+    for sn, e in stmts.items():
+        body = [Decl('q', Arr(INT, False), ArrLit([arg(0), arg(1), _i(3)], INT, False)),
+                Decl('ws', Arr(STRING, True), ArrLit([S('ab'), S('c')], STRING, True)),
+                _mark('['), ExprStmt(e), _mark(']'), W(Var('tn', INT)), _mark(' '),
+                For(Decl('i', INT, _i(0)), Bin('<', Var('i', INT), _i(2)), OpAssign(Var('i', INT), '+', _i(1)), [ExprStmt(e)]), W(Var('tn', INT)), _mark('\n')]
+        yield f'exprstmt/{sn}', Program([Decl('tn', INT, _i(0))], [Func('@is_you', [('v', Arr(INT, True), False)], EMPTY, body), tick, okf])
+
+
+EXPRSTMT_ARGS = [['3', '4'], ['0', '7'], ['-2', '1']]
+
+
+def tailcall_programs():
+    """functions that end in a call of themselves whose arguments read the parameters in every order (accumulators,
+    swaps, rotations), plus mutual recursion: the callee's parameters are the values computed from the CALLER's"""
+    def F(name, params, body, ret=INT):
+        return Func(name, [(p, INT, False) for p in params], ret, body)
+    a, b, c, n = Var('a', INT), Var('b', INT), Var('c', INT), Var('n', INT)
+    progs = {
+        'gcd': (F('f', ['a', 'b'], [If(Bin('==', b, _i(0)), [Ret(a)]), Ret(Call('f', [b, Bin('%', a, b)], t=INT))]), [arg(0), arg(1)]),
+        'swap_count': (F('f', ['a', 'b', 'n'], [If(Bin('<=', n, _i(0)), [Ret(Bin('-', Bin('*', a, _i(100)), b))]), Ret(Call('f', [b, a, Bin('-', n, _i(1))], t=INT))]),
+                       [arg(0), arg(1), _i(3)]),
+        'fib_acc': (F('f', ['n', 'a', 'b'], [If(Bin('<=', n, _i(0)), [Ret(a)]), Ret(Call('f', [Bin('-', n, _i(1)), b, Bin('+', a, b)], t=INT))]), [_i(10), _i(0), _i(1)]),
+        'rotate': (F('f', ['a', 'b', 'c', 'n'], [If(Bin('<=', n, _i(0)), [Ret(Bin('+', Bin('*', a, _i(100)), Bin('+', Bin('*', b, _i(10)), c)))]),
+                                                   Ret(Call('f', [c, a, b, Bin('-', n, _i(1))], t=INT))]), [_i(1), _i(2), _i(3), arg(2)]),
+        'right_to_left_dependency': (F('f', ['a', 'b', 'n'], [If(Bin('<=', n, _i(0)), [Ret(Bin('-', a, b))]),
+                                                                Ret(Call('f', [Bin('+', a, b), Bin('-', a, b), Bin('-', n, _i(1))], t=INT))]), [arg(0), arg(1), _i(4)]),
+        'sum_down': (F('f', ['n', 'a'], [If(Bin('<=', n, _i(0)), [Ret(a)]), Ret(Call('f', [Bin('-', n, _i(1)), Bin('+', a, n)], t=INT))]), [_i(20), _i(0)]),
+        'not_a_tail_call': (F('f', ['a', 'b'], [If(Bin('<=', a, _i(0)), [Ret(b)]), Ret(Bin('+', Call('f', [Bin('-', a, _i(1)), Bin('+', b, a)], t=INT), _i(1)))]), [_i(5), arg(0)]),
+        'tail_call_in_branch': (F('f', ['a', 'b'], [If(Bin('>', a, _i(0)), [If(Bin('>', b, _i(50)), [Ret(Call('f', [Bin('-', a, _i(1)), Bin('-', b, a)], t=INT))],
+                                                                                     [Ret(Call('f', [Bin('-', a, _i(1)), Bin('+', b, Bin('*', a, a))], t=INT))])]), Ret(b)]),
+                                [_i(6), arg(0)]),
+    }
+    for name, (f, call_args) in progs.items():
+        main = Func('@is_you', [('v', Arr(INT, True), False)], EMPTY, [W(Call(f, call_args)), _mark(' '), W(Call(f, list(reversed(call_args))[:len(f.params)] if len(call_args) == len(f.params) else call_args)), _mark('\n')])
+        yield f'tailcall/{name}', Program([], [main, f])
+    ev = Func('ev', [('n', INT, False), ('acc', INT, False)], INT, [If(Bin('==', n, _i(0)), [Ret(Var('acc', INT))]),
+                                                                      Ret(Call('od', [Bin('-', n, _i(1)), Bin('+', Var('acc', INT), n)], t=INT))])
+    od = Func('od', [('n', INT, False), ('acc', INT, False)], INT, [If(Bin('==', n, _i(0)), [Ret(Un('-', Var('acc', INT)))]),
+                                                                      Ret(Call('ev', [Bin('-', n, _i(1)), Bin('-', Var('acc', INT), n)], t=INT))])
+    main = Func('@is_you', [('v', Arr(INT, True), False)], EMPTY, [W(Call(ev, [_i(7), arg(0)])), _mark(' '), W(Call(od, [_i(4), arg(1)])), _mark('\n')])
+    yield 'tailcall/mutual', Program([], [main, ev, od])
+
+
+TAILCALL_ARGS = [['48', '18', '2'], ['7', '3', '5'], ['0', '9', '1']]
